@@ -3,8 +3,8 @@ import MesonModel.Crash.Model
 /-
 driver commands of area `crash` (C09)
 
-  crash <cmd>|<init>|<effects>|<k>|<mode>   state after a kill at effect k (mode b = before, t = inside) + recovery verdict
-  scan  <cmd>|<init>|<effects>              number of crash points and the unacceptable ones as k:mode:verdict
+  crash <cmd>|<init>|<effects>|<k>|<mode>|<mf>   state after a kill at effect k (mode b = before, t = inside) + recovery verdict
+  scan  <cmd>|<init>|<effects>|<mf>         number of crash points and the unacceptable ones as k:mode:verdict
 
   <cmd>      setup | reconfigure | wipe | configure
   <init>     `;`-separated  id:st      st = a (absent) | d (dir) | t (torn) | o0 | o1 | o2 (ok older/old/new)
@@ -90,23 +90,24 @@ def parseCmd (s : String) : Option Cmd :=
 def showVerdict : Verdict Gen → String
   | .usable (.coredata g) => "usable:cd:" ++ showGen g
   | .usable (.cmdline g) => "usable:cl:" ++ showGen g
+  | .usable (.cmdlineOptions g) => "usable:clo:" ++ showGen g
   | .usable .fresh => "usable:fresh"
   | .rejectedCleanly => "rejected"
   | .internalError => "internal"
 
-def statePaths : List Path := [0, 1, 2, 3, 4, 5, 6, 7]
+def statePaths : List Path := [0, 1, 2, 3, 4, 5, 6, 7, 8]
 
 def handle (cmd : String) (fs : List String) : String :=
   match cmd, fs with
-  | "crash", [c, ini, effs, k, mode] =>
+  | "crash", [c, ini, effs, k, mode, mf] =>
     match parseCmd c, parseInit ini, parseEffects effs, k.toNat? with
     | some c, some ini, some effs, some k =>
       let s := crashAt (FS.ofList ini) effs k (mode == "t")
       let v := recover s
       showVerdict v ++ "|" ++ ",".intercalate (statePaths.map (fun p => showSt (s p)))
-        ++ "|" ++ boolStr (acceptable c v) ++ "|" ++ boolStr (needsReconfigure s)
+        ++ "|" ++ boolStr (acceptable c (mf == "1") v) ++ "|" ++ boolStr (needsReconfigure s)
     | _, _, _, _ => "bad-args"
-  | "scan", [c, ini, effs] =>
+  | "scan", [c, ini, effs, mf] =>
     match parseCmd c, parseInit ini, parseEffects effs with
     | some c, some ini, some effs =>
       let fs0 := FS.ofList ini
@@ -117,7 +118,7 @@ def handle (cmd : String) (fs : List String) : String :=
         if hasMid then [(k, false), (k, true)] else [(k, false)])
       let bad := pts.filterMap (fun (k, t) =>
         let v := recover (crashAt fs0 effs k t)
-        if acceptable c v then none
+        if acceptable c (mf == "1") v then none
         else some (toString k ++ ":" ++ (if t then "t" else "b") ++ ":" ++ showVerdict v))
       toString pts.length ++ "|" ++ ";".intercalate bad
     | _, _, _ => "bad-args"
